@@ -171,7 +171,12 @@ pub struct Lab {
     /// returned (tracing harness: a child span that outlives its step), until the schedule releases
     /// the pseudo-gate `span:<key>#<inv>`.
     pub span_hook: Option<fn(&str) -> Box<dyn std::any::Any>>,
-    pub held: Vec<(usize, Box<dyn std::any::Any>)>,
+    pub held: Vec<(usize, Box<dyn std::any::Any>, String)>,
+    /// Called with a held object and its log token right before the schedule drops it (tracing
+    /// harness: the background task logs inside its span, then ends).
+    pub span_release_hook: Option<fn(&dyn std::any::Any, &str)>,
+    /// Emits a log from outside every scenario's context (tracing harness: from a detached thread).
+    pub unattributed_log_hook: Option<fn(&str)>,
     /// Polls of the lab parser stream after it had returned `None`.
     pub parser_polled_after_end: u64,
 }
@@ -332,6 +337,11 @@ impl W {
 
 /// Number of log events a callback emits in a phase ("pre" = before its gates, "post" = after its
 /// last await point): 0..=2 as a rule, a burst of 20..=64 in one of 16 (callback, phase) pairs.
+/// Whether callback `key`#`inv` leaves an object alive after it returned (if a `span_hook` is set).
+pub fn leaves_span(key: &str, inv: usize) -> bool {
+    crate::tape::hash_str(&format!("{key}#{inv}span")) % 6 == 0
+}
+
 pub fn log_count(key: &str, inv: usize, phase: &str) -> u64 {
     let h = crate::tape::hash_str(&format!("{key}#{inv}{phase}"));
     if h % 16 == 3 { 20 + (h / 16) % 45 } else { h % 3 }
@@ -370,6 +380,11 @@ pub async fn callback(key: String, world: Option<&mut W>, reason: Option<Reason>
         w.counter += 1;
     }
     let hook = with_lab(|l| l.log_hook);
+    if let Some(u) = with_lab(|l| l.unattributed_log_hook) {
+        if crate::tape::hash_str(&format!("{key}#{inv}unattr")) % 8 == 0 {
+            u(&format!("UNATTR|{key}|{inv}|END"));
+        }
+    }
     let nlogs = |phase: &str| log_count(&key, inv, phase);
     if let Some(h) = hook {
         for j in 0..nlogs("pre") {
@@ -385,14 +400,14 @@ pub async fn callback(key: String, world: Option<&mut W>, reason: Option<Reason>
         }
     }
     if let Some(sh) = with_lab(|l| l.span_hook) {
-        if crate::tape::hash_str(&format!("{key}#{inv}span")) % 6 == 0 {
+        if leaves_span(&key, inv) {
             let obj = sh(&format!("{key}#{inv}"));
             with_lab(|l| {
                 let id = l.next_gate;
                 l.next_gate += 1;
                 let seq = l.tick();
                 l.activity += 1;
-                l.held.push((id, obj));
+                l.held.push((id, obj, format!("LOGTOK|{key}|{inv}|{}|late0|END", wid.map_or("-".to_string(), |w| w.to_string()))));
                 l.pending.push(PendingGate { id, waker: futures::task::noop_waker(), label: format!("span:{key}#{inv}"), seq });
             });
         }
